@@ -14,6 +14,7 @@ Model: Side.RoundRobin (backend.go RoundRobinBackend). All statements are for ev
 import Side.RoundRobin
 import Spec.Side
 import Mathlib.Data.List.Rotate
+import Lemmas.RRObs
 open GoStd Side.RR
 
 namespace Props.C05
@@ -303,5 +304,96 @@ example : WF { index := 2, backends := [[97], [98], [99]], keys := [[99], [97], 
   intro a; simp; tauto
 example : targetsN 3 { index := 7, backends := [[97], [98], [99]], keys := [] } = [[99], [97], [98]] := by
   decide
+
+/-! ### oracle soundness: the observer `Spec.RRObs` never raises an alarm on the model
+
+The driver feeds `Spec.RRObs` with the add/remove operations and with the dispatch targets observed
+on the IMPLEMENTATION. Here the same observer is fed with the targets of the MODEL
+(`Lemmas.RRObs.observe`, one entry per operation, paired with the model's output): on every
+well-formed history (`opsOk`: an address is added only when it is not currently a member) it
+reports nothing. Together with the differential test (implementation = model on the tested
+histories) this says an alarm of the observer on the implementation is never a false alarm caused
+by the observer being stricter than the model. -/
+
+open Lemmas.RRObs in
+/-- General form: from ANY well-formed state `s` (any cursor value) and any observer state coupled
+with it, a well-formed history produces no report, and the final states are coupled again. -/
+theorem oracle_sound_from (s : St) (o : Spec.RRObs) (ops : List Op)
+    (hwf : WF s) (hc : Coupled s o) (hops : opsOk s ops) :
+    observe o (ops.zip (run s ops).2) = [] ∧
+    Coupled (run s ops).1 (observeSt o (ops.zip (run s ops).2)).1 := by
+  induction ops generalizing s o with
+  | nil => exact ⟨rfl, hc⟩
+  | cons op ops ih =>
+    have hwf' := wf_step s op hwf hops.1
+    cases op with
+    | add a =>
+      have := ih (add s a) (o.add a) hwf' (add_step s o a hc) hops.2
+      simpa [run, step, observeSt, obsStep] using this
+    | remove a =>
+      have := ih (remove s a).1 (o.remove a) hwf' (remove_step s o a hwf.2.2 hc) hops.2
+      simpa [run, step, observeSt, obsStep] using this
+    | dispatch =>
+      obtain ⟨h1, h2⟩ := dispatch_step s o hwf.1 hc
+      have := ih (dispatch s).1 (o.dispatch (dispatch s).2).1 hwf' h2 hops.2
+      simpa [run, step, observeSt, obsStep, h1] using this
+
+open Lemmas.RRObs in
+/-- ORACLE SOUNDNESS. The observer, started empty and fed with a well-formed history of the model
+started empty (each operation paired with the model's output for it), reports nothing. -/
+theorem C05_oracle_sound (ops : List Op) (hdom : opsOk {} ops) :
+    observe {} (ops.zip (run {} ops).2) = [] :=
+  (oracle_sound_from {} {} ops wf_init coupled_init hdom).1
+
+open Lemmas.RRObs in
+/-- The same from any well-formed state (any cursor), the observer being told the state's list. -/
+theorem C05_oracle_sound_from (s : St) (ops : List Op) (hwf : WF s) (hdom : opsOk s ops) :
+    observe { members := s.backends, recent := [] } (ops.zip (run s ops).2) = [] :=
+  (oracle_sound_from s _ ops hwf (coupled_fresh s) hdom).1
+
+open Lemmas.RRObs in
+/-- Along a well-formed history the observer's member list IS the model's backend list. -/
+theorem oracle_members (ops : List Op) (hdom : opsOk {} ops) :
+    (observeSt {} (ops.zip (run {} ops).2)).1.members = (run {} ops).1.backends :=
+  (oracle_sound_from {} {} ops wf_init coupled_init hdom).2.members
+
+instance (s : St) : (op : Op) → Decidable (opOk s op)
+  | .add a => inferInstanceAs (Decidable (a ∉ s.backends))
+  | .remove _ => isTrue trivial
+  | .dispatch => isTrue trivial
+
+instance opsOkDec : (s : St) → (ops : List Op) → Decidable (opsOk s ops)
+  | _, [] => isTrue trivial
+  | s, op :: ops => @instDecidableAnd _ _ _ (opsOkDec (step s op).1 ops)
+
+/-- non-vacuity of `hdom`: a history with adds, a re-add after removal, removal of a stranger,
+dispatches across membership changes and a drop is well-formed ... -/
+example : opsOk {} [.dispatch, .add [97], .add [98], .dispatch, .add [99], .dispatch, .dispatch, .dispatch,
+    .dispatch, .remove [100], .dispatch, .remove [98], .dispatch, .dispatch, .add [98], .dispatch,
+    .remove [97], .remove [98], .remove [99], .dispatch] := by decide
+/-- ... and its model outputs are these (so the theorem speaks about real rotations) -/
+example : (run {} [.dispatch, .add [97], .add [98], .dispatch, .add [99], .dispatch, .dispatch, .dispatch,
+    .dispatch, .remove [100], .dispatch, .remove [98], .dispatch, .dispatch, .add [98], .dispatch,
+    .remove [97], .remove [98], .remove [99], .dispatch]).2 =
+    [none, none, none, some [98], none, some [99], some [97], some [98],
+     some [99], none, some [97], none, some [99], some [97], none, some [99],
+     none, none, none, none] := by decide
+
+open Lemmas.RRObs in
+/-- `hdom` cannot be dropped: adding a present address twice makes the MODEL itself hand two
+consecutive requests to the same address although the observer counts two members ... -/
+example : observe {} ([Op.add [97], .add [97], .dispatch, .dispatch].zip
+    (run {} [.add [97], .add [97], .dispatch, .dispatch]).2) = ["window-repeats-target"] := by decide
+open Lemmas.RRObs in
+/-- ... and after add a, add a, remove a, remove a the model still has `a` in its list (the map
+entry went with the first removal, so the second is ignored) while the observer has none. -/
+example : observe {} ([Op.add [97], .add [97], .remove [97], .remove [97], .dispatch].zip
+    (run {} [.add [97], .add [97], .remove [97], .remove [97], .dispatch]).2) = ["target-not-member"] := by decide
+
+/-- corner of the model: across a removal the SAME backend can be hit twice in a row (the cursor is
+not adjusted when the list shrinks); the observer stays silent only because it restarts its window
+at every membership change -- that restart is needed for soundness, not just convenient. -/
+example : (run {} [.add [97], .add [98], .add [99], .dispatch, .dispatch, .remove [97], .dispatch]).2 =
+    [none, none, none, some [98], some [99], none, some [99]] := by decide
 
 end Props.C05
